@@ -102,7 +102,14 @@ Rules ==
      [r |-> "unused-shadowed-by-parameter", ss |-> <<Raw(<<"us := 1">>), Raw(<<"func up us:num">>), Raw(<<"    print us us">>), Raw(<<"    print us">>), Raw(<<"end">>), Raw(<<"up 2">>)>>, sites |-> {"top0", "top1"}],
      [r |-> "unused-shadowed-by-handler-parameter", ss |-> <<Raw(<<"us := 1">>), Raw(<<"on up us:num y:num">>), Raw(<<"    print us us y">>), Raw(<<"    print us">>), Raw(<<"end">>)>>, sites |-> {"top0", "top1"}],
      [r |-> "unused-typed-shadowed", ss |-> <<Raw(<<"us:string">>), Raw(<<"if true">>), Raw(<<"    us := 2">>), Raw(<<"    print us us">>), Raw(<<"end">>)>>, sites |-> Sites],
-     [r |-> "unused-assigned-only-outer", ss |-> <<Raw(<<"if true">>), Raw(<<"    uo := 1">>), Raw(<<"    if true">>), Raw(<<"        uo := 2">>), Raw(<<"        print uo uo">>), Raw(<<"    end">>), Raw(<<"end">>)>>, sites |-> Sites] >>
+     [r |-> "unused-assigned-only-outer", ss |-> <<Raw(<<"if true">>), Raw(<<"    uo := 1">>), Raw(<<"    if true">>), Raw(<<"        uo := 2">>), Raw(<<"        print uo uo">>), Raw(<<"    end">>), Raw(<<"end">>)>>, sites |-> Sites],
+     [r |-> "shadow-err-in-block", ss |-> <<Raw(<<"if true">>), Raw(<<"    err := \"s\"">>), Raw(<<"    n9 := str2num \"x\"">>), Raw(<<"    print err n9">>), Raw(<<"end">>)>>, sites |-> Sites],
+     [r |-> "shadow-errmsg-in-block", ss |-> <<Raw(<<"if true">>), Raw(<<"    errmsg := 5">>), Raw(<<"    n9 := str2num \"x\"">>), Raw(<<"    print errmsg n9">>), Raw(<<"end">>)>>, sites |-> Sites],
+     [r |-> "shadow-err-typed", ss |-> <<Raw(<<"if true">>), Raw(<<"    err:num">>), Raw(<<"    n9 := str2bool \"x\"">>), Raw(<<"    print err n9">>), Raw(<<"end">>)>>, sites |-> Sites],
+     [r |-> "shadow-err-loop-variable", ss |-> <<Raw(<<"for err := range 2">>), Raw(<<"    n9 := str2num \"x\"">>), Raw(<<"    print err n9">>), Raw(<<"end">>)>>, sites |-> Sites],
+     [r |-> "shadow-err-parameter", ss |-> <<Raw(<<"func se err:string">>), Raw(<<"    n9 := str2num \"x\"">>), Raw(<<"    print err n9">>), Raw(<<"end">>), Raw(<<"se \"a\"">>)>>, sites |-> {"top0", "top1"}],
+     [r |-> "return-valueless-call-from-procedure", ss |-> <<Raw(<<"func rv">>), Raw(<<"    return (proc 1)">>), Raw(<<"end">>), Raw(<<"rv">>)>>, sites |-> {"top0", "top1"}],
+     [r |-> "valueless-call-declared", ss |-> <<Raw(<<"vc := (proc 1)">>), Raw(<<"print vc">>)>>, sites |-> Sites] >>
 
 \* ---- stray text after the n-th `end` line: the edit is carried in the case (fields n, extra) and
 \* applied to the rendered text by the check (append extra to the n-th line that consists of `end`)
